@@ -155,6 +155,13 @@ class TableEnv:
                 vn = self.rep.vals["vn"]
                 t.data = (list(vn[0]), vn[1]) if self.rep.shape == 1 else bytearray(vn) if self.rep.shape == 2 else list(vn)
                 return "none"
+            if n == "move":
+                if self.level == "module":
+                    m = self._holder()
+                    ir2 = self.g.IR()
+                    m.ir = ir2           # the module (with its tables) now belongs to another IR
+                    self.ir = ir2
+                return "none"
             if n == "settype":
                 t.type_name = self.rep.types[op["t"]]
                 return "none"
